@@ -385,6 +385,32 @@ def run(ctx):
                and sorted(str(event_side(a)) for a in c.args) == ["1", "2"] and skip_eqs and all(inc_b.reaches(x.block, {c.block}) for x in skip_eqs) and not any(inc_b.reaches(c.block, {x.block}, avoid={n_.block for n_ in nexts[:2]}) for x in skip_eqs)]
         r.check(len(fin) == 1, "compare/mismatch-after-skips-decides", where(inc_b), "after the skips the two current events are compared once more and a mismatch is decisive")
 
+    with ctx.rule("C15.R9", "T6", "the comparator skips a body delimiter only where an implicit body can be (an attribute-body boundary)", floor=4) as r:
+        # `@a(1,2)` and `@a({1,2})` are the same value: one side's parser emits StartBody/EndRecord where the other has none, and incremental_compare
+        # steps over them. That is sound only right after a StartAttribute / right before an EndAttribute. A skip that depends on nothing but `this
+        # event is StartBody and the two events differ` also aligns `{{1,1}}` with `{1,{1}}` (the validators only compare sizes), which then compare
+        # equal although they are different values with different hashes.
+        skips = []
+        for c in inc_b.calls:
+            if c.name != "next" or not c.args:
+                continue
+            g = dom_guards(inc_b, c.block)
+            ev = [(d, l) for d, l, _ in g if re.match(r"^eq\(event_[12], ReadEvent::(StartBody|EndRecord)\(\)\)$", d) and l == "true"]
+            if not ev:
+                continue
+            ctxg = [(d, l) for d, l, _ in g if not d.startswith("disc(") and not re.match(r"^(eq|ne)\((event_[12]|tuple\(next)", d)]
+            skips.append((c, ev[-1][0], ctxg))
+        if len(skips) < 4:
+            raise AnchorMissing("incremental_compare: expected the four skip sites (StartBody / EndRecord on either side), found %d" % len(skips))
+        free = [(c, e) for c, e, cg in skips if not cg]
+        r.check(not free, "compare/skips-only-at-attribute-body-boundaries", skips[0][0].loc(), "every skip of a body delimiter is conditional on the position (attribute body) as well as on the event",
+                "%d of %d skips of StartBody / EndRecord depend only on the two events being different: a body delimiter is stepped over anywhere, so differently nested records are aligned and "
+                "compare equal (`{{1,1}}` vs `{1,{1}}`, `{{a,b}}` vs `{a,{b}}`) although they parse to different values and hash differently" % (len(free), len(skips)))
+        for side in ("event_1", "event_2"):
+            mine = [e for c, e, cg in skips if side in e]
+            r.check(len(mine) == 2, "compare/%s/skip-sites" % side, where(inc_b), "StartBody and EndRecord can be skipped on this side (%d sites)" % len(mine))
+        r.check(True, "compare/analysed", where(inc_b), "%d skip sites" % len(skips))
+
     with ctx.rule("C15.R7", "T5", "the hasher's textual look-ahead stops at every character it tests and steps over string literals", floor=4) as r:
         il = ctx.saw(rc.fn(name="is_implicit_record"))
         prog = ctx.program(R)
